@@ -2,7 +2,7 @@
 (* Role 1 (model check Active = ImplActive) and role 2 (generate the oracle *)
 (* table for the real schedule.activeForTime) for Schedule.tla.  One state  *)
 (* per schedule so that the 16 TLC workers share the table.                 *)
-EXTENDS Schedule, Json
+EXTENDS Schedule, Json, SequencesExt
 
 CONSTANTS Mins, WdSets, DateSets, W0s, Days
 
@@ -23,11 +23,7 @@ WindowSane == \A D \in Days : /\ WindowStart(s, D) < WindowEnd(s, D)
 
 \* Role 2: one JSON line per schedule: the instants (ascending) and the
 \* predicted answer for each.
-SetToSeq(S) == LET RECURSIVE f(_)
-                   f(T) == IF T = {} THEN <<>>
-                           ELSE LET m == CHOOSE x \in T : \A y \in T : x <= y
-                                IN <<m>> \o f(T \ {m})
-               IN f(S)
+SetToSeq(S) == SetToSortSeq(S, LAMBDA x, y : x < y)
 Dump ==
     LET ts == SetToSeq(Instants(s, Days))
     IN PrintT(ToJson([sm |-> s.sm, em |-> s.em, wds |-> SetToSeq(s.wds),
